@@ -220,6 +220,11 @@ def exec_run(run, builds, seed, wdir, known):
         if arts:
             res.crash = True
             res.artifact = os.path.join(art, arts[0])
+            # the generic coverage-guided mode also leaves the failing case in the ordinary replay format
+            fc = out + ".failcase"
+            if os.path.exists(fc):
+                with open(fc, encoding="latin-1") as f:
+                    res.case_text = f.read()
         elif rc != 0:
             # timeout-/oom-/slow-unit are load noise unless confirmed by replay (not a violation by themselves)
             res.noise = True
@@ -543,7 +548,24 @@ def main(argv):
                     if p.returncode != 0:
                         fails += 1
                 if fails == 3:
-                    violations.append((crash_class(outp), dst, "libFuzzer artifact, reproduced 3x"))
+                    cls = crash_class(outp)
+                    m = re.search(r"ORACLE FAILURE class=(\S+)", outp)
+                    if m:
+                        cls = m.group(1)
+                    # prefer the readable case file when it reproduces in the property's default (rapidcheck) build
+                    if res.case_text:
+                        cdst = os.path.join(odir, "violation-%d.case" % k)
+                        with open(cdst, "w", encoding="latin-1") as f:
+                            f.write("#harness=%s\n#found_by=%s seed=%d tier=%s\n" % (spec["default_build"], res.run.label, seed, tier))
+                            f.write(res.case_text)
+                        db = builds[spec["default_build"]]
+                        if db.path is None:
+                            build_one(db, th)
+                        st, ccls, coutp = confirm(db, cdst)
+                        if st in ("fail", "crash"):
+                            violations.append((ccls, cdst, "found by %s (libFuzzer), reproduced 3x from the case file" % res.run.label))
+                            continue
+                    violations.append((cls, dst, "libFuzzer artifact, reproduced 3x"))
                 else:
                     inconclusive.append("%s: artifact did not reproduce (%d/3)" % (res.run.label, fails))
             elif getattr(res, "noise", False):
